@@ -1,5 +1,6 @@
 import MV.Model.Mesh
 import MV.Model.Halfedge
+import MV.Model.HalfedgeGate
 /-!
 Line protocol for the mesh engine (first token `mesh` already consumed by `Driver/Main.lean`).
 
@@ -22,6 +23,11 @@ Line protocol for the mesh engine (first token `mesh` already consumed by `Drive
        | `bad out-of-range-read` | `bad fuel`   (the model hit an out-of-bounds access, resp.
          a non-terminating loop; neither happens for balanced input)
          <nV> is only checked for being a number (the model is of the vertCount < 2^18 path).
+  soup <nV> <nT> <3*nT indices>
+      -> `start … | paired … | prop … | manifold <0|1>`   (C09b: `CreateHalfedges` on an ARBITRARY
+         triangle soup followed by the checked `IsManifold()`; 1 = the constructor goes on, 0 =
+         NotManifold) | `bad out-of-range-read` | `bad fuel` (a fault of a checked primitive in
+         either function: never, by MV.C09b.createHalfedges_total_safe / isManifold_total_safe)
   anything else -> `bad-op`
 -/
 namespace Mesh
@@ -86,6 +92,20 @@ def handleHalfedges (a : Array Nat) : String :=
   | .error .oob => "bad out-of-range-read"
   | .error .fuel => "bad fuel"
 
+def handleSoup (a : Array Nat) : String :=
+  if a.size < 2 then "bad-op" else
+  let nT := a[1]!
+  if a.size != 2 + 3 * nT then "bad-op" else
+  let ts := trisOf a 2 nT []
+  match MV.Halfedge.createHalfedges ts with
+  | .ok o =>
+    match MV.Halfedge.isManifold o with
+    | .ok b => s!"start {showInts o.start} | paired {showInts o.paired} | prop {showInts o.prop} | manifold {if b then 1 else 0}"
+    | .error .oob => "bad out-of-range-read"
+    | .error .fuel => "bad fuel"
+  | .error .oob => "bad out-of-range-read"
+  | .error .fuel => "bad fuel"
+
 def handle (toks : List String) : String :=
   match toks with
   | "check" :: rest => match parseNats rest with
@@ -96,6 +116,9 @@ def handle (toks : List String) : String :=
       | none => "bad-op"
   | "halfedges" :: rest => match parseNats rest with
       | some a => handleHalfedges a
+      | none => "bad-op"
+  | "soup" :: rest => match parseNats rest with
+      | some a => handleSoup a
       | none => "bad-op"
   | _ => "bad-op"
 
